@@ -109,8 +109,10 @@ def transOracle (op : String) (c : Ctx) (x y : Dec) (o : Out) : List (String × 
           else []
       | .infinite =>
         -- overflow only if the exact value really exceeds the range
-        if op == "ln" || op == "log10" then [("C12", "infinite logarithm of a finite positive operand")]
-        else if enc.hi.sgn > 0 && enc.hi.adj < c.emax then [("C12", "overflow to infinity but the exact value is in range")] else []
+        -- (a logarithm can overflow too: log10(1E-998) = -998 does not fit MaxExponent 1)
+        let absHi : BF := if enc.hi.sgn ≥ 0 && enc.lo.sgn ≥ 0 then enc.hi
+                          else if enc.hi.sgn ≤ 0 then enc.lo.neg else BF.maxB enc.hi enc.lo.neg
+        if absHi.sgn > 0 && absHi.adj < c.emax then [("C12", "overflow to infinity but the exact value is in range")] else []
       | _ => [("C12", "NaN result for operands in the function's domain")]
   exactChecks ++ accuracy
 
